@@ -31,16 +31,23 @@ class Operand:
     (None = unnamed), unique key tuples, column names (for 'F').  Payload of row i, column j is
     base + 8 i + j (all distinct, integer valued: exact in floats)."""
 
-    def __init__(self, kind, levels, keys, cols=None, base=1000, name=None):
+    def __init__(self, kind, levels, keys, cols=None, base=1000, name=None, mi1=False):
         self.kind, self.levels, self.keys = kind, list(levels), [tuple(k) for k in keys]
         self.cols = list(cols) if cols else (['v'] if kind == 'S' else ['u', 'w'])
         self.base, self.name = base, name
+        self.mi1 = bool(mi1) and len(self.levels) == 1   # index layout: the single level is held by a MultiIndex (from_arrays / from_frame)
+
+    def clone(self, keys=None, cols=None):
+        return Operand(self.kind, self.levels, self.keys if keys is None else keys, self.cols if cols is None else cols,
+                       self.base, self.name, self.mi1)
 
     def value(self, i, j):
         return float(self.base + 8 * i + j)
 
     def build(self):
-        if len(self.levels) == 1:
+        if len(self.levels) == 1 and self.mi1:
+            idx = pd.MultiIndex.from_arrays([[k[0] for k in self.keys]], names=self.levels)
+        elif len(self.levels) == 1:
             idx = pd.Index([k[0] for k in self.keys], name=self.levels[0])
         else:
             idx = pd.MultiIndex.from_tuples(self.keys, names=self.levels) if self.keys else \
@@ -64,12 +71,15 @@ class Operand:
         return i if all(vals[j] == self.value(i, j) for j in range(len(vals))) else -1
 
     def describe(self):
-        return {'kind': self.kind, 'levels': self.levels, 'keys': [list(k) for k in self.keys],
-                'cols': self.cols if self.kind == 'F' else None, 'base': self.base}
+        d = {'kind': self.kind, 'levels': self.levels, 'keys': [list(k) for k in self.keys],
+             'cols': self.cols if self.kind == 'F' else None, 'base': self.base}
+        if self.mi1:
+            d['mi1'] = True
+        return d
 
     @staticmethod
     def from_description(d):
-        return Operand(d['kind'], d['levels'], [tuple(k) for k in d['keys']], d.get('cols'), d.get('base', 1000))
+        return Operand(d['kind'], d['levels'], [tuple(k) for k in d['keys']], d.get('cols'), d.get('base', 1000), mi1=d.get('mi1', False))
 
 
 def total_levels(lo, lp):
@@ -405,6 +415,10 @@ def gen_pair(rng, maxrows=6):
     ncol = rng.randint(1, 3)
     O = Operand(okind, lo, ko, cols=['u', 'w', 'x'][:ncol], base=1000)
     P = Operand(pkind, lp, kp, cols=['f', 'g', 'h'][:rng.randint(1, 2)], base=5000, name='prm')
+    # index layout: a single level held by a one-level MultiIndex (not for the parameter-set Series, whose keys are columns)
+    for X in (O, P):
+        if len(X.levels) == 1 and not (X is O and kind == 'paramset') and rng.random() < 0.08:
+            X.mi1 = True
     return O, P
 
 
@@ -468,6 +482,11 @@ def coincident_codes(O, P):
         return False
     co, cp = coded(O, P)
     return co == cp
+
+
+def one_level_multiindex(O, P):
+    """Class of the known finding C13/one-level-multiindex: the single index level of an operand is held by a MultiIndex."""
+    return bool(O.mi1 or P.mi1)
 
 
 def int_level_name(O, P):
